@@ -29,6 +29,11 @@ CHECKS = {
    text="Final states of seeded histories with removals (gaps), id-less annotations/data, all selector kinds and value types and hostile Unicode ids are written to STAM JSON and read back under four output variants; the reloaded store must be observationally identical (items, ids or their absence, order, selector kinds, referenced items, ranges and alignment, typed values, reverse lookups) and writing it again must reproduce the first output (all files for stand-off variants). Held on the stores observed.",
    note="Trusted: obs.rs canonical observation; orphan text selections (used by no annotation) are not part of the model and are ignored; sub-stores are not yet exercised by this check.",
    ref="5/C05"),
+ "C14": dict(
+   technique="runtime monitoring: before/after snapshot oracle around requests that the shadow model says must be refused (canonical observation with handles and every reverse lookup, search answers, hooked dump of all stores and indices), then the corrected request against a twin store replayed without the failure",
+   text="On stores reached by seeded histories, up to 10 invalid requests per store from a catalogue of 22 (unknown resource/annotation/dataset/key/data, out-of-range and inverted offsets, complex selector with an invalid last member, nested complex selector, missing target - each combined with data new to the store -, valid target with unknown set/key/data handles after new data, duplicate annotation/resource/dataset/data ids) and one batch per store (annotate_from_iter, annotate_from_file, ADD query) with the invalid item first, in the middle or last: the snapshot after the refusal must equal the snapshot before, and the corrected request must leave the store equal to a twin that never saw the failure. Held for the faults observed except the recorded findings (annotate() is not atomic).",
+   note="Trusted: obs.rs observation, c12::answers, the dump hook. Requests where model and library disagree on refusal are C03/C04's business and are not judged here; with_annotations() (consumes the store) is not exercised.",
+   ref="5/C14"),
  "C15": dict(
    technique="runtime monitoring: round-trip differential on stores reached by seeded histories through the STAM CSV files (manifest, annotations table, dataset tables, .txt resources) - canonical observation with values reduced to their text",
    text="Final states of seeded histories (all selector kinds incl. complex selectors with mixed and range-compressed sub-selectors, end-aligned and relative offsets, gaps, ids without ';') are saved as STAM CSV and loaded again; resources and texts, keys, data ids and value text, annotation ids, data references, targets (kinds, referenced items, absolute ranges, selected text) and every reverse lookup must be equal. Held on the stores observed; the two temp-id findings are recorded.",
